@@ -1,2 +1,7 @@
 ; Hprose wire format: byte classes
 (define-fun isdigit ((x Int)) Bool (and (<= 48 x) (<= x 57)))
+; number of non-nil elements among the first k elements of a [][]byte (A = the .arr components of
+; the elements, o = the slice's offset); a nil []byte has arr = 0
+; sig nn_count Int
+(define-fun-rec nn_count ((A (Array Int Int)) (AO (Array Int Int)) (AL (Array Int Int)) (AC (Array Int Int)) (o Int) (k Int)) Int
+  (ite (<= k 0) 0 (+ (nn_count A AO AL AC o (- k 1)) (ite (= (select A (+ o (- k 1))) 0) 0 1))))
